@@ -86,9 +86,14 @@ def fill_values(layout, rows, skip=()):
             v = ((h % 60000) + (r % 50) * 977 + comp) % 65340
             v = v.astype(np.uint16)
         elif dt in ('u4',):
-            v = (70000 + (h % 100000) + r * 3 + comp * 7).astype(np.uint32)
-        elif dt in ('u8', 'i8'):
-            v = ((1 << 33) + (h % 100000) + r * 5 + comp).astype(dt)
+            # beyond 2^24 / near 2^32: a detour through float32 or a signed 32-bit type changes them
+            v = ((1 << 32) - 1 - ((h % 100000) + r * 3 + comp * 7)).astype(np.uint32)
+        elif dt == 'u8':
+            # beyond 2^53 / near 2^64: a detour through float64 or int64 changes them
+            v = (np.uint64((1 << 64) - 1) - ((h % 100000) + r * 5 + comp).astype(np.uint64))
+        elif dt == 'i8':
+            v = ((1 << 62) + (h % 100000) + r * 5 + comp) * np.where(r % 2 == 0, 1, -1)
+            v = v.astype(np.int64)
         else:
             raise ValueError(dt)
         out[name] = v.reshape((n,) + tuple(tail))
